@@ -521,7 +521,7 @@ def check_for_uniform_time_steps(epoch):
 
     """
     delta_t = np.diff(epoch)
-    if delta_t.min() != delta_t.max():
+    if len(delta_t) and delta_t.min() != delta_t.max():
         raise ValueError("Nonuniform time steps in {}".format(sorted(set(delta_t))))
 
 
